@@ -171,9 +171,9 @@ func vfQuery(malformed bool) {
 			if req.subject == "_QS2_" {
 				w.mq.answer(req, []byte(`{"result":{"events":[]}}`), nil)
 			} else {
-				outs := 5
+				outs := 6
 				if malformed {
-					outs = 8
+					outs = 9
 				}
 				switch zzvf.Choose("query-outcome", outs) {
 				case 0:
@@ -192,13 +192,17 @@ func vfQuery(malformed bool) {
 					answered[n] = "none"
 					w.mq.answer(req, nil, mq.ErrRequestTimeout)
 				case 5:
+					// the full model, now empty: the property is deleted
+					answered[n] = "change"
+					w.mq.answer(req, []byte(`{"result":{"model":{}}}`), nil)
+				case 6:
 					answered[n] = "none"
 					zzvf.Tag("null-event-in-query-response")
 					w.mq.answer(req, []byte(`{"result":{"events":[null]}}`), nil)
-				case 6:
+				case 7:
 					answered[n] = "none"
 					w.mq.answer(req, []byte(`{"result":{"collection":[1,2]}}`), nil)
-				case 7:
+				case 8:
 					answered[n] = "none"
 					w.mq.answer(req, []byte(`{"result":{"events":[{"event":"change","data":{"values":{"string":{"rid":"a..b"}}}},{"event":"add","data":{"idx":-1,"value":1}}]}}`), nil)
 				}
